@@ -36,7 +36,7 @@ RespChunks == 2          \* a response is written in two pieces ("response being
 
 DevNames == { "NoWake",             \* no wake-up connection (e.g. connect to the unmapped 0.0.0.0 fails)     -> Live_RunReturns
               "JoinWorkers",        \* closure waits for the handlers before returning                       -> Live_RunReturns
-              "BoundedQueue",       \* execute blocks while a job is waiting (bounded channel, saturated pool) -> Live_RunReturns
+              "BoundedQueue",       \* execute blocks until a worker is idle (rendezvous channel, saturated pool) -> Live_RunReturns
               "ReturnBeforeJoin",   \* run returns without joining the accept thread                          -> Inv_PortFree
               "ListenerLeak",       \* listener not closed when the closure ends                              -> Inv_PortFree
               "DenyWhenSaturated",  \* acceptor drops a connection when no worker is idle                     -> Inv_ServingBefore
@@ -219,7 +219,7 @@ Flag_Read ==
 \* thread_pool.execute (unbounded channel: never blocks) / tokio::spawn
 Dispatch ==
   /\ apc = "dispatch"
-  /\ ("BoundedQueue" \in Dev /\ rt = "threaded") => queue = <<>>
+  /\ ("BoundedQueue" \in Dev /\ rt = "threaded") => Idle
   /\ IF rt = "tokio"
        THEN /\ cs' = [cs EXCEPT ![cur] = "read"] /\ busy' = busy \cup {cur} /\ queue' = queue
        ELSE IF "DenyWhenSaturated" \in Dev /\ ~Idle
@@ -319,9 +319,9 @@ Spec == Init /\ [][Next]_vars /\ WF_vars(Acceptor) /\ WF_vars(RunThread)
 
 \* everything fair, every client eventually closes: used only for Live_Drains
 SpecAllFair == Init /\ [][Next]_vars /\ WF_vars(Acceptor) /\ WF_vars(RunThread) /\ WF_vars(Pool)
-               /\ \A c \in Conns : WF_vars(H_Read(c)) /\ WF_vars(H_Finish(c)) /\ WF_vars(H_Write(c))
-                                   /\ WF_vars(H_Eof(c)) /\ WF_vars(Cli_Close(c))
-                                   /\ WF_vars(\E k \in {"close", "keep", "ws"} : Cli_SendRest(c, k))
+               \* the handler actions of one connection are mutually exclusive: one WF per connection
+               /\ (\A c \in Conns : WF_vars(H_Read(c) \/ H_Finish(c) \/ H_Write(c) \/ H_Eof(c)))
+               /\ (\A d \in Clients : WF_vars(Cli_Close(d) \/ \E k \in {"close", "keep", "ws"} : Cli_SendRest(d, k)))
 
 \* guard of the fair processes: used by the trace spec to decide that a recorded quiescent state is a
 \* legitimate one (the real accept loop / run thread stopped where the model says it may stop)
@@ -353,8 +353,9 @@ Inv_Owned == /\ \A c \in Conns : cs[c] \in {"read", "run", "write", "ws"} <=> c 
              /\ \A c \in Conns : cs[c] # "aborted"
              /\ rt = "threaded" => Cardinality(busy) <= alive
 \* jobs dispatched before the stop stay in front of the Shutdown message
-Inv_DispatchedKept == \A c \in Conns : /\ cs[c] = "queued" <=> \E i \in 1..Len(queue) : queue[i] = c
-                                         /\ cs[c] # "discarded"
+Inv_DispatchedKept ==
+  /\ \A c \in Conns : (cs[c] = "queued") <=> (\E i \in 1..Len(queue) : queue[i] = c)
+  /\ \A c \in Conns : cs[c] # "discarded"
 
 \* the wake-up connection is never handed to a handler (the flag is set before it is made)
 Inv_WakeUnserved == rt = "threaded" => cs[WAKE] \in {"none", "backlog", "held", "dropped", "reset", "refused"}
